@@ -36,6 +36,7 @@ import (
 	"testing"
 	"time"
 
+	"github.com/influxdata/influxdb/v2/tsdb/engine/tsm1"
 	"github.com/influxdata/influxdb/v2/tsdb/index/tsi1"
 	"github.com/influxdata/influxdb/v2/v1/services/meta"
 	"verif/h/mini"
@@ -181,6 +182,19 @@ func (r *run) retime(k int) error {
 	return nil
 }
 
+// idlePlanner wraps the engine's compaction planner and never plans anything. tsm1.Engine.DeleteSeriesRange ends with
+// enableLevelCompactions, which starts the shard's background compaction goroutine even though the fixture opened the
+// store with compactions disabled; one second later it would compact files that have tombstones, at a wall-clock
+// dependent point of the checks. Compactions of a history are the explicit "c" operations (mini.FullCompactShard
+// calls the Compactor directly and does not consult the planner).
+type idlePlanner struct{ tsm1.CompactionPlanner }
+
+func (idlePlanner) Plan(tsm1.TsmGenerations, time.Time) ([]tsm1.CompactionGroup, int64) { return nil, 0 }
+func (idlePlanner) PlanLevel(tsm1.TsmGenerations, int) ([]tsm1.CompactionGroup, int64)   { return nil, 0 }
+func (idlePlanner) PlanOptimize(tsm1.TsmGenerations, time.Time) ([]tsm1.CompactionGroup, int64, int64) {
+	return nil, 0, 0
+}
+
 func (r *run) ensureShard() bool {
 	if r.srcID != 0 {
 		return true
@@ -190,7 +204,14 @@ func (r *run) ensureShard() bool {
 		return false
 	}
 	r.srcID = ids[0]
-	r.dir = r.f.TSDB.Shard(r.srcID).Path()
+	sh := r.f.TSDB.Shard(r.srcID)
+	r.dir = sh.Path()
+	// installed right after the write that created the shard: no compaction goroutine exists yet
+	if e, err := sh.Engine(); err == nil {
+		if te, ok := e.(*tsm1.Engine); ok {
+			te.CompactionPlan = idlePlanner{te.CompactionPlan}
+		}
+	}
 	return true
 }
 
@@ -468,8 +489,9 @@ func execute(c *vlib.Ctx, opsList []string, exports [][2]int) (v verdict, err er
 		v.skipped = "no-shard"
 		return v, nil
 	}
-	add := func(sig, f string, a ...any) {
-		v.probs = append(v.probs, problem{sig, fmt.Sprintf(f, a...)})
+	add := func(sig, format string, a ...any) {
+		// error texts of the repo may contain the (random) fixture directory: never let it into an observation
+		v.probs = append(v.probs, problem{sig, strings.ReplaceAll(fmt.Sprintf(format, a...), f.Dir, "<fixture-dir>")})
 	}
 	ctx := context.Background()
 
@@ -721,7 +743,7 @@ func TestCheck(t *testing.T) {
 	vlib.Main(t, &vlib.Check{
 		ID: "C38", Level: "exploration",
 		Rule: "every history of length 1..3 (quick: 399 histories) resp. 1..4 plus every history of length 5 over {wL,wH,dM,s,c} that starts with a write (thorough: 2800 + 1250 histories) over the 7 operations {wL: write A@slots0,1 + B@slot0; wH: write A@slots2,3 + B@slot3; wA: (over)write A@slots0-3; dM: delete [slot1,slot2] of all series; dB: delete series B; s: snapshot cache->TSM; c: snapshot + full compaction} " +
-			"on a fresh bucket (series m,t=a and m,t=b, float field v, 4 time slots in one shard, value = 100*step+10*slot+series so every write is distinguishable); per history: (1) BackupShard(since=0) -> RestoreShard into an empty shard, reads compared; (2) BackupShard(since) for since = T(j), T(j)+30min, j=0..n+1 with file mtimes set by os.Chtimes to the step of their last content change, archive must contain every later-changed *.tsm/*.tombstone file byte-identically; (3) ExportShard for every one of the 10 ranges between slot boundaries -> ImportShard into an empty shard, reads compared with the source points in the range. " +
+			"on a fresh bucket (series m,t=a and m,t=b, float field v, 4 time slots in one shard, value = 100*step+10*slot+series so every write is distinguishable); per history: (1) BackupShard(since=0) -> RestoreShard into an empty shard, reads compared; (2) BackupShard(since) for since = T(j), T(j)+30min, j=0..n+1 with file mtimes set by os.Chtimes to the step of their last content change, archive must contain every later-changed *.tsm/*.tombstone file byte-identically; (3) ExportShard for every one of the 10 ranges between slot boundaries (quick: the 6 ranges all, first half, second half, middle, first slot, last slot) -> ImportShard into an empty shard, reads compared with the source points in the range. " +
 			"non-trivial = histories that contain a write (a shard exists); distinct by construction.",
 		Assumptions: []string{
 			"the oracle of restore/export is the source shard's own ReadFilter before the backup (statement: 'the same readable points and series'); series without points are not compared; a model of the history is only a diagnostic cross-check (evidence counter source_reads_differing_from_history_model)",
@@ -729,7 +751,8 @@ func TestCheck(t *testing.T) {
 			"export range bounds lie between the time slots, so the statement's silence on inclusive/exclusive range ends does not matter",
 			"tsi1.DefaultPartitionN is set to 1 (the INFLUXDB_EXP_TSI_PARTITIONS knob) to make the ~12 shard creations per history affordable",
 			"ImportShard schedules a full compaction (background) on the import target; the target is read once right after the import and discarded",
-			"if the shard directory changes while an incremental backup runs (background compaction started by a delete), that backup is not judged (outcome class directory-changed-during-backup)",
+			"the source shard's compaction PLANNER is replaced by one that never plans (Engine.CompactionPlan is an exported injection point): a delete starts the shard's background compaction goroutine although the fixture disabled compactions, and it would compact tombstoned files one wall-clock second later, in the middle of the checks. Compactions are the explicit 'c' operations",
+			"if the shard directory nevertheless changes while an incremental backup runs, that backup is not judged (outcome class directory-changed-during-backup)",
 		},
 		QuickBudgetS: 70, ThoroughBudgetS: 780,
 		Run: func(c *vlib.Ctx) {
@@ -746,6 +769,9 @@ func TestCheck(t *testing.T) {
 					fam{"histories of length 5 over {wL,wH,dM,s,c} that start with a write", 5, []string{"wL", "wH", "dM", "s", "c"}, []string{"wL", "wH"}})
 			}
 			exports := allRanges()
+			if c.Quick() {
+				exports = [][2]int{{0, 4}, {0, 2}, {2, 4}, {1, 3}, {0, 1}, {3, 4}}
+			}
 			var idx int64
 			for _, fm := range fams {
 				complete := histories(fm.d, fm.alphabet, fm.first, func(h []string) bool {
@@ -760,7 +786,7 @@ func TestCheck(t *testing.T) {
 					return true
 				})
 				if !complete {
-					c.Cap(fmt.Sprintf("wall budget: the families before %q are complete; that family was visited in lexicographic order only in part", fm.name))
+					c.Cap(fmt.Sprintf("wall budget: a shard stopped inside the family %q (visited in lexicographic order; its share of the earlier families is complete)", fm.name))
 					return
 				}
 			}
